@@ -13,7 +13,8 @@ REQS_PER_SCHEMA = 10
 MIN_NONTRIVIAL = 50
 RULE = ("case = schema decorated with 0-3 instances of four tagging directives at every attachable location (scalar, enum, "
         "enum value, input object, input field, argument, field, object) x %d requests supplying inputs as literals, "
-        "variables, variables nested in object/list literals, with 0-2 query-side directives per field node and merged "
+        "variables, variables nested in object/list literals, one-item lists also as the bare item; the decorated object type "
+        "reached through its concrete type, an interface, a union and interface lists; with 0-2 query-side directives per field node and merged "
         "field nodes each carrying their own. Every hook (on_post_input_coercion, on_argument_execution, on_field_execution, "
         "on_pre_output_coercion) appends the NON-COMMUTING tag <stage:directive:instance-argument> to the value it passes "
         "on (custom string scalar whose coerce_input/parse_literal/coerce_output also tag), so the strings received by "
